@@ -166,6 +166,12 @@ struct World {
   press: Vec<PresToken>,
   next_index: u32,
   nontrivial: bool,
+  /// long-lived objects of the verifier application: created once at the start of the run and reused by every
+  /// validation (validators) or cloned as the starting point of a validation's options (default options values)
+  cred_validator: JwtCredentialValidator<AnyVerifier>,
+  pres_validator: JwtPresentationValidator<AnyVerifier>,
+  cred_default_opts: JwtCredentialValidationOptions,
+  pres_default_opts: JwtPresentationValidationOptions,
 }
 
 const REL_AUTH: Scope = Some(0);
@@ -887,7 +893,14 @@ fn validate_credential(w: &mut World, step: usize) {
   }
   ctx::set_clock(v_now);
   let _ = ctx::take_clock_reads();
-  let mut opts = JwtCredentialValidationOptions::default();
+  // options start from a fresh default value or from the application's long-lived one (built at the start of the run)
+  let mut opts = if ctx::choose(2) == 0 {
+    ctx::stat("probe.options_value_built_earlier");
+    w.cred_default_opts.clone()
+  } else {
+    JwtCredentialValidationOptions::default()
+  };
+  let _ = ctx::take_clock_reads();
   let explicit_latest_issuance: Option<i64> = if ctx::chance(1, 3) { issuance.map(|i| i + ctx::range(-1, 1)) } else { None };
   let explicit_earliest_expiry: Option<i64> = if ctx::chance(1, 3) {
     Some(expiry.unwrap_or(v_now) + ctx::range(-1, 1))
@@ -924,7 +937,8 @@ fn validate_credential(w: &mut World, step: usize) {
   let fail_fast = if ctx::choose(2) == 0 { FailFast::FirstError } else { FailFast::AllErrors };
 
   // ---- the call under test ----
-  let validator = JwtCredentialValidator::with_signature_verifier(AnyVerifier);
+  let fresh_validator = JwtCredentialValidator::with_signature_verifier(AnyVerifier);
+  let validator = if ctx::choose(4) == 0 { &fresh_validator } else { &w.cred_validator };
   let res = ctx::catch(|| validator.validate::<_, Object>(&Jwt::new(delivered.clone()), &sup.doc, &opts, fail_fast));
   let reads = ctx::take_clock_reads();
   let res = match res {
@@ -1365,7 +1379,14 @@ fn validate_presentation(w: &mut World, step: usize) {
   }
   ctx::set_clock(v_now);
   let _ = ctx::take_clock_reads();
-  let mut opts = JwtPresentationValidationOptions::default().presentation_verifier_options(vopts);
+  let mut opts = if ctx::choose(2) == 0 {
+    ctx::stat("probe.options_value_built_earlier");
+    w.pres_default_opts.clone()
+  } else {
+    JwtPresentationValidationOptions::default()
+  }
+  .presentation_verifier_options(vopts);
+  let _ = ctx::take_clock_reads();
   let explicit_earliest: Option<i64> = if ctx::chance(1, 4) { Some(t.exp.unwrap_or(v_now) + ctx::range(-1, 1)) } else { None };
   let explicit_latest: Option<i64> = if ctx::chance(1, 4) { Some(t.nbf.unwrap_or(v_now) + ctx::range(-1, 1)) } else { None };
   if let Some(b) = explicit_earliest {
@@ -1374,7 +1395,8 @@ fn validate_presentation(w: &mut World, step: usize) {
   if let Some(b) = explicit_latest {
     opts = opts.latest_issuance_date(ts(b));
   }
-  let validator = JwtPresentationValidator::with_signature_verifier(AnyVerifier);
+  let fresh_validator = JwtPresentationValidator::with_signature_verifier(AnyVerifier);
+  let validator = if ctx::choose(4) == 0 { &fresh_validator } else { &w.pres_validator };
   let res = ctx::catch(|| validator.validate::<_, Jwt, Object>(&Jwt::new(delivered.clone()), &sup.doc, &opts));
   let res = match res {
     Ok(r) => r,
@@ -1681,7 +1703,15 @@ pub fn run(prop: &str, _params: &Params) {
     press: Vec::new(),
     next_index: 0,
     nontrivial: false,
+    cred_validator: JwtCredentialValidator::with_signature_verifier(AnyVerifier),
+    pres_validator: JwtPresentationValidator::with_signature_verifier(AnyVerifier),
+    cred_default_opts: {
+      ctx::set_clock(ctx::BASE_TIME);
+      JwtCredentialValidationOptions::default()
+    },
+    pres_default_opts: JwtPresentationValidationOptions::default(),
   };
+  let _ = ctx::take_clock_reads();
   // ---- setup (fault-free) ----
   for i in 0..w.n_issuers {
     let mut p = Party::new("issuer", ctx::choose(2) == 0, i);
